@@ -1,4 +1,5 @@
 import Ndt.Model.Points
+import Ndt.Proofs.DiffGen
 import Ndt.Proofs.FieldNum
 import Mathlib.Tactic.Linarith
 import Mathlib.Tactic.Positivity
